@@ -4,7 +4,7 @@
 
 package localcachedmap
 
-//@ property C06 C07
+//@ property C06
 
 // lastmerged: ghost - the merged key GetOrCreate used for its lookup
 //@ ghost var lastmerged []byte
